@@ -1,8 +1,9 @@
 /-
 C08, the `park` token (`Thread.token`, a field of its own since the repair of findings F5/F6/F18): a frame
-theorem.  The token of a thread is written in two places only — `Thread::set_unparked` (`unpark`,
-`notify_one`, `notify_all`: `false → true`, for a live thread that is not parked) and `rt::park` (the
-parker's own token: `true → false`).  Every other helper of `Model/Interp.lean`, `Exec.schedule`,
+theorem.  The token of a thread is written in two places only — `Thread::set_unparked` (`unpark`:
+`false → true`, for a live thread that is not parked) and `rt::park` (the parker's own token: `true → false`).
+(Since the repair of finding F15 the condvar no longer goes through `park` / `unpark`: `Condvar::wait` blocks
+with `rt::block`, `notify_one` / `notify_all` wake with `Set::wake`; none of them touches a token.)  Every other helper of `Model/Interp.lean`, `Exec.schedule`,
 `Exec.newThread`, the atomics, and hence every stage of every operation and of the epilogue, leaves every
 thread's token alone.
 -/
@@ -52,6 +53,24 @@ theorem toks_modifyActive (s : Threads) (f : Thread → Thread) (hf : ∀ t, (f 
   exact toks_setCaus s _
 @[simp] theorem toks_active (s : Threads) (a : Option Nat) : toks { s with active := a } = toks s := rfl
 @[simp] theorem toks_seqCst (s : Threads) (v : VV) : toks { s with seqCst := v } = toks s := rfl
+
+theorem wakeFrom_token (t u : Thread) : (t.wakeFrom u).token = t.token := by
+  unfold Thread.wakeFrom
+  simp only
+  split <;> rfl
+
+/-- `Set::wake` touches no token -/
+@[simp] theorem toks_wake (s : Threads) (t : Nat) : toks (s.wake t) = toks s := by
+  unfold Threads.wake
+  split
+  · rfl
+  · exact toks_modify s _ _ (fun th => wakeFrom_token th _)
+
+@[simp] theorem toks_foldl_wake (l : List Nat) (s : Threads) :
+    toks (l.foldl (fun ths t => ths.wake t) s) = toks s := by
+  induction l generalizing s with
+  | nil => rfl
+  | cons t l ih => rw [List.foldl_cons, ih, toks_wake]
 
 theorem toks_mapIdx (s : Threads) (f : Nat → Thread → Thread) (hf : ∀ i t, (f i t).token = t.token) :
     toks { s with threads := s.threads.mapIdx f } = toks s := by
@@ -241,8 +260,8 @@ macro "tk_auto0" h:ident : tactic => `(tactic|
      | (cases $h:ident; exact rfl)
      | (tk_sat0; (try cases $h:ident); tk_simp; done)))
 
-theorem branch_keep {w w' : World} {o : Nat} {a : Action} {b : Bool}
-    (h : w.branch o a b = .ok w') : Keep w w' := by
+theorem branch_keep {w w' : World} {o : Nat} {a : Action} {b wt : Bool}
+    (h : w.branch o a b wt = .ok w') : Keep w w' := by
   unfold World.branch at h
   mt_split h
   · cases h
@@ -253,6 +272,16 @@ theorem branch_keep {w w' : World} {o : Nat} {a : Action} {b : Bool}
 
 theorem yieldNow_keep {w w' : World} (h : w.yieldNow = .ok w') : Keep w w' := by
   unfold World.yieldNow at h
+  mt_split h
+  · cases h
+  · have := schedule_toks ‹Exec.schedule _ _ = Except.ok _›
+    cases h
+    exact Eq.trans this (toks_modifyActive _ _ (fun t => rfl))
+
+/-- `rt::block` blocks the caller and runs the scheduler: no token is touched (in particular the caller's own
+token is neither looked at nor consumed) -/
+theorem blockNow_keep {w w' : World} (h : w.blockNow = .ok w') : Keep w w' := by
+  unfold World.blockNow at h
   mt_split h
   · cases h
   · have := schedule_toks ‹Exec.schedule _ _ = Except.ok _›
@@ -302,8 +331,9 @@ theorem lazyRead_keep {w : World} {sv : LazyVal} {r : World × Int} (h : w.lazyR
 
 macro "tk_sat1" : tactic => `(tactic|
   (tk_sat0
-   try (have := branch_keep ‹World.branch _ _ _ _ = Except.ok _›)
+   try (have := branch_keep ‹World.branch _ _ _ _ _ = Except.ok _›)
    try (have := yieldNow_keep ‹World.yieldNow _ = Except.ok _›)
+   try (have := blockNow_keep ‹World.blockNow _ = Except.ok _›)
    try (have := postAcquire_keep ‹World.postAcquire _ _ = Except.ok _›)
    try (have := releaseLock_keep ‹World.releaseLock _ _ = Except.ok _›)
    try (have := postAcquireRead_keep ‹World.postAcquireRead _ _ = Except.ok _›)
@@ -420,7 +450,7 @@ theorem setUnparked_token_mono {t : Thread} (h : t.token = true) : t.setUnparked
     · exact h
 
 theorem unpark_token_mono {t u : Thread} (h : t.token = true) : (t.unpark u).token = true :=
-  setUnparked_token_mono (t := { t with causality := t.causality.join u.causality }) h
+  setUnparked_token_mono (t := { t with unparkCaus := t.unparkCaus.join u.causality }) h
 
 /-- `Set::unpark` never takes a token away -/
 theorem toks_unpark_mono (s : Threads) (t i : Nat) (h : toks s i = true) : toks (s.unpark t) i = true := by
@@ -500,26 +530,37 @@ theorem parkNow_toks_self {w w' : World} (h : w.parkNow = .ok w') :
 
 /-- the operations whose stages may write a token -/
 def tokenOp : Op → Bool
-  | .park | .cvWait _ _ | .unpark _ | .cvOne _ | .cvAll _ => true
+  | .park | .unpark _ => true
   | _ => false
 
 /-- the stage `c.stage` of `op` calls `rt::park` -/
 def parksAt (c : TCtl) : Op → Bool
   | .park => c.stage == 0
-  | .cvWait _ _ => c.stage == 1
   | _ => false
 
+theorem runOp_cvWait_keep {w w' : World} {c : TCtl} {vi mi : Nat}
+    (h : w.runOp c (.cvWait vi mi) = .ok w') : Keep w w' := by
+  simp only [World.runOp] at h; tk_auto2 h
+
+theorem runOp_cvOne_keep {w w' : World} {c : TCtl} {vi : Nat}
+    (h : w.runOp c (.cvOne vi) = .ok w') : Keep w w' := by
+  simp only [World.runOp] at h; tk_auto2 h
+
+theorem runOp_cvAll_keep {w w' : World} {c : TCtl} {vi : Nat}
+    (h : w.runOp c (.cvAll vi) = .ok w') : Keep w w' := by
+  simp only [World.runOp] at h; tk_auto2 h
+
 set_option maxHeartbeats 400000 in
-/-- every stage of every operation other than `park`, `cvwait`, `unpark`, `notify_one`, `notify_all` keeps
-every thread's token -/
+/-- every stage of every operation other than `park`, `unpark` — `cvwait`, `notify_one`, `notify_all` included
+since the repair of finding F15 — keeps every thread's token -/
 theorem runOp_keep {w w' : World} {c : TCtl} {op : Op} (hop : tokenOp op = false)
     (h : w.runOp c op = .ok w') : Keep w w' := by
   cases op
   case park => cases hop
-  case cvWait => cases hop
   case unpark => cases hop
-  case cvOne => cases hop
-  case cvAll => cases hop
+  case cvWait vi mi => exact runOp_cvWait_keep h
+  case cvOne vi => exact runOp_cvOne_keep h
+  case cvAll vi => exact runOp_cvAll_keep h
   case «lazy» => exact lazyStage_keep h
   case blockOn => exact blockOnStage_keep h
   case wake => exact wakeStage_keep h
@@ -556,25 +597,6 @@ theorem runOp_unpark {w w' : World} {c : TCtl} {b : Nat} (h : w.runOp c (.unpark
     cases h
     exact ⟨fun i hi => toks_unpark_mono _ t i hi, t, ht, rfl, fun i hi => toks_unpark_ne _ t i hi⟩
 
-theorem runOp_cvOne {w w' : World} {c : TCtl} {vi : Nat} (h : w.runOp c (.cvOne vi) = .ok w') :
-    Mono w w' := by
-  simp only [World.runOp] at h
-  mt_split h
-  all_goals first
-    | (cases h; done)
-    | (cases h; exact Keep.mono rfl)
-    | exact (branch_keep h).mono
-    | (cases h; exact fun i hi => toks_unpark_mono _ _ i hi)
-
-theorem runOp_cvAll {w w' : World} {c : TCtl} {vi : Nat} (h : w.runOp c (.cvAll vi) = .ok w') :
-    Mono w w' := by
-  simp only [World.runOp] at h
-  mt_split h
-  all_goals first
-    | (cases h; done)
-    | exact (branch_keep h).mono
-    | (cases h; exact fun i hi => toks_foldl_unpark_mono _ _ i hi)
-
 /-- `park`: the other threads' tokens are kept; the stage that calls `rt::park` (stage 0) leaves the parker
 without a token, the other stage keeps its token too -/
 theorem runOp_park {w w' : World} {c : TCtl} (h : w.runOp c .park = .ok w') :
@@ -591,39 +613,6 @@ theorem runOp_park {w w' : World} {c : TCtl} (h : w.runOp c .park = .ok w') :
     cases h
     exact ⟨fun _ _ => rfl, fun _ => rfl, fun e => absurd e hs'⟩
 
-/-- `Condvar::wait`: as `park`; the stage that calls `rt::park` is stage 1 -/
-theorem runOp_cvWait {w w' : World} {c : TCtl} {vi mi : Nat} (h : w.runOp c (.cvWait vi mi) = .ok w') :
-    (∀ i, i ≠ w.tid → toks w'.exec.threads i = toks w.exec.threads i) ∧
-    (c.stage ≠ 1 → Keep w w') ∧ (c.stage = 1 → toks w'.exec.threads w.tid = false) := by
-  simp only [World.runOp] at h
-  split at h
-  · next hs =>
-    have k := branch_keep h
-    exact ⟨fun i _ => congrFun k i, fun _ => k, fun e => by omega⟩
-  · next hs =>
-    mt_split h
-    all_goals first
-      | (cases h; done)
-      | (have k := releaseLock_keep ‹World.releaseLock _ _ = Except.ok _›
-         have sm := Foot.releaseLock_same ‹World.releaseLock _ _ = Except.ok _›
-         have e1 := parkNow_toks_self h
-         have e2 := parkNow_toks_ne h
-         simp only [Foot.tid_setStage, sm.2, Foot.tid_setObj, threads_setStage] at e1 e2
-         refine ⟨fun i hi => (e2 i hi).trans (congrFun k i), fun hn => absurd hs hn, fun _ => e1⟩)
-  · next hs =>
-    mt_split h
-    all_goals first
-      | (cases h; done)
-      | (have k := branch_keep h
-         exact ⟨fun i _ => congrFun k i, fun _ => k, fun e => by omega⟩)
-  · next hs1 hs2 hs3 =>
-    mt_split h
-    all_goals first
-      | (cases h; done)
-      | (have k := postAcquire_keep ‹World.postAcquire _ _ = Except.ok _›
-         cases h
-         exact ⟨fun i _ => congrFun k i, fun _ => k, fun e => absurd e (by omega)⟩)
-
 /-- one stage of any operation takes no token away — except the parker's own token in the stage that calls
 `rt::park` -/
 theorem runOp_mono {w w' : World} {c : TCtl} {op : Op} (h : w.runOp c op = .ok w') (i : Nat)
@@ -638,15 +627,7 @@ theorem runOp_mono {w w' : World} {c : TCtl} {op : Op} (h : w.runOp c op = .ok w
       · have : c.stage ≠ 0 := by simpa [parksAt] using hp e
         exact (h2 this).mono i hi
       · rw [h1 i e]; exact hi
-    case cvWait vi mi =>
-      obtain ⟨h1, h2, _⟩ := runOp_cvWait h
-      by_cases e : i = w.tid
-      · have : c.stage ≠ 1 := by simpa [parksAt] using hp e
-        exact (h2 this).mono i hi
-      · rw [h1 i e]; exact hi
     case unpark b => exact (runOp_unpark h).1 i hi
-    case cvOne vi => exact runOp_cvOne h i hi
-    case cvAll vi => exact runOp_cvAll h i hi
 
 /-! ### the epilogue, one step -/
 
@@ -704,8 +685,7 @@ theorem stepActive_mono {w w' : World} (h : w.stepActive = .ok w') (i : Nat)
     exact runOp_mono h i hp hi
   · exact (runEpilogue_keep h).mono i hi
 
-/-- … and a stage that does not belong to `park`, `cvwait`, `unpark`, `notify_one`, `notify_all` changes no
-token at all -/
+/-- … and a stage that does not belong to `park` or `unpark` changes no token at all -/
 theorem stepActive_keep {w w' : World} (h : w.stepActive = .ok w')
     (hop : ∀ op, (w.prog.threads.getD (w.ctlOf w.tid).body [])[(w.ctlOf w.tid).pc]? = some op →
       tokenOp op = false) : Keep w w' := by
@@ -763,26 +743,31 @@ theorem toks_unpark_target {s : Threads} {t : Nat} (hin : t < s.threads.length)
   · rw [toks_modify_self _ _ _ hin]
     exact key _ hp hl
 
-/-- with a token, `rt::park` returns at once: the token is cleared and nothing else happens — `schedule` is
-not called: the path, the objects, the active thread and every thread's state are what they were -/
+/-- with a token, `rt::park` returns at once: the token is cleared, the stored unpark causality is acquired
+(`acquire_unpark`) and nothing else happens — `schedule` is not called: the path, the objects, the active thread
+and every thread's state are what they were -/
 theorem parkNow_of_token {w : World} (h : toks w.exec.threads w.tid = true) :
-    w.parkNow = .ok (w.setThs (w.ths.modifyActive fun th => { th with token := false })) := by
+    w.parkNow = .ok (w.setThs (w.ths.modifyActive fun th =>
+      ({ th with token := false }).acquireUnpark)) := by
   unfold World.parkNow
   have : w.ths.activeT.token = true := h
   rw [this]
   rfl
 
 theorem state_modifyActive_token (s : Threads) (i : Nat) :
-    ((s.modifyActive fun th => { th with token := false }).get i).state = (s.get i).state ∧
-    ((s.modifyActive fun th => { th with token := false }).get i).parked = (s.get i).parked ∧
-    ((s.modifyActive fun th => { th with token := false }).get i).operation = (s.get i).operation := by
+    ((s.modifyActive fun th => ({ th with token := false }).acquireUnpark).get i).state =
+      (s.get i).state ∧
+    ((s.modifyActive fun th => ({ th with token := false }).acquireUnpark).get i).parked =
+      (s.get i).parked ∧
+    ((s.modifyActive fun th => ({ th with token := false }).acquireUnpark).get i).operation =
+      (s.get i).operation := by
   unfold Threads.modifyActive
   rw [WB.get_modify]
   split <;> exact ⟨rfl, rfl, rfl⟩
 
 /-- **an `unpark` that comes before the `park` is never lost.**  Thread `t` is live and not blocked in
 `park` in `w0`; `w1` is any world whose thread table is the result of `Set::unpark t` on that of `w0` (e.g.
-the successor of `w0` by the operation `unpark`, by `notify_one` or `notify_all` with `t` the only waiter);
+the successor of `w0` by the operation `unpark`);
 from `w1` the twin runs any stages of any threads — of `t` itself too — among which `t` runs no stage that
 calls `rt::park`; then `t`, active in `w`, calls `rt::park`: it returns at once, without blocking and
 without a scheduling point. -/
@@ -791,7 +776,8 @@ theorem unpark_then_park {w0 w1 w : World} {t : Nat}
     (hl : (w0.exec.threads.get t).state ≠ .terminated)
     (hu : w1.exec.threads = w0.exec.threads.unpark t) (hrun : NoParkRun t w1 w) (ht : w.tid = t) :
     toks w.exec.threads t = true ∧
-    w.parkNow = .ok (w.setThs (w.ths.modifyActive fun th => { th with token := false })) := by
+    w.parkNow = .ok (w.setThs (w.ths.modifyActive fun th =>
+      ({ th with token := false }).acquireUnpark)) := by
   have h1 : toks w1.exec.threads t = true := by rw [hu]; exact toks_unpark_target hin hp hl
   have h2 := hrun.token h1
   exact ⟨h2, parkNow_of_token (by rw [ht]; exact h2)⟩
